@@ -3,14 +3,15 @@
 import sys, os
 sys.path.insert(0, os.path.dirname(os.path.abspath(__file__)))
 from vlib import GenError, COQ
-import gen_hashmap, gen_unicode, gen_declspec, gen_casttable, gen_abi
+import gen_hashmap, gen_unicode, gen_declspec, gen_casttable, gen_abi, gen_punct
 repo = sys.argv[1] if len(sys.argv) > 1 else '/repo'
 rc = 0
 for name, fn, out in [('hashmap', gen_hashmap.gen, 'theories/Gen/HashmapConsts.v'),
                       ('unicode', gen_unicode.gen, 'theories/Gen/UnicodeTables.v'),
                       ('declspec', gen_declspec.gen, 'theories/Gen/DeclspecTable.v'),
                       ('casttable', gen_casttable.gen, 'theories/Gen/CastTable.v'),
-                      ('abi', gen_abi.gen, 'theories/Gen/AbiConsts.v')]:
+                      ('abi', gen_abi.gen, 'theories/Gen/AbiConsts.v'),
+                      ('punct', gen_punct.gen, 'theories/Gen/PunctTable.v')]:
     try:
         fn(repo, os.path.join(COQ, out))
     except GenError as e:
